@@ -36,7 +36,7 @@ PROPS = {
     "C01": {"gen": ["C01"]},
     "C02": {"gen": ["C02"]},
     "C03": {"gen": ["C03"]},
-    "C04": {"gen": [], "wasm": "C04"},
+    "C04": {"gen": ["C04"], "wasm": "C04"},
     "C05": {"gen": ["C05"]},
     "C06": {"gen": ["C06"]},
     "C07": {"gen": [], "wasm": "C07"},
@@ -360,7 +360,7 @@ def main():
         RELEVANT = {"consts": {"C06", "C11", "C05"}, "structure": {"C13", "C14"}, "abi": {"C15", "C07", "C04"},
                     "fns-nanbox": {"C06", "C11"}, "fns-logs": {"C05"}, "fns-state": {"C03", "C02"},
                     "markers": {"C01", "C08", "C11"}, "writer": {"C02", "C03"},
-                    "read-entries": {"C01", "C08"}, "deint": {"C10", "C09"}}
+                    "read-entries": {"C01", "C08"}, "deint": {"C10", "C09"}, "api-status": {"C03", "C02", "C15"}}
         rel_errors = [e for e in extract.get("errors", [])
                       if prop in RELEVANT.get(e.split(":")[0], {prop})]
         for e in rel_errors:
